@@ -198,6 +198,12 @@ func (sc *ArshalMarshal) Run(t *core.Tape, env *Env) (any, []core.Violation) {
 	st := env.Stats
 	var viols []core.Violation
 	report := func(prop, class, site, f string, a ...any) bool {
+		if prop == "C07" && p.nBad > 0 {
+			// cross-route equalities only hold for well-behaved user code: what a
+			// misbehaving peer gets away with legitimately depends on the context
+			// it is called in (top level, array element, member value)
+			return false
+		}
 		v := core.Violationf(prop, class, site, f, a...)
 		viols = append(viols, v)
 		return v.Property == env.Prop && !env.Known[v.Key()]
